@@ -515,7 +515,10 @@ def run(ctx):
     nt = sorted(res["nontrivial"], key=lambda x: len(x[1]))
     res["samples"] = [{"chain": a, "nodes": b[:300]} for a, b in nt[len(nt) // 3:len(nt) // 3 + 3] + nt[-2:]]
     res["clauses"] = {
-        "theorem": ["DFXP / SAMI reader models return depth-balanced style nodes (all trees; end-node dictionaries not compared); "
+        "theorem": ["wave 7: CLOSURE - the reader model's output for a written payload is flat-balanced (end node = start node) over "
+                    "XML Char texts and plain dictionaries; CHAINS DFXP->SAMI->DFXP and SAMI->DFXP->SAMI on the models keep the italic "
+                    "flags of every visible character (C11_chain_*); executed beside the real chains (request 1110)",
+                    "DFXP / SAMI reader models return depth-balanced style nodes (all trees; end-node dictionaries not compared); "
                     "the WebVTT reader model has no style nodes (trivial)",
                     "DFXP writer model: every </span> closes an open <span>, the number left open is the open_span flag (any "
                     "node list); flat balanced spans leave none open; SAMI likewise for flat balanced spans",
